@@ -13,8 +13,11 @@ MANIFEST_ENTRY = {
             "transform_rows for 1..4 knots with interp1d quadratic/cubic in Lagrange form, the bilinear splat of bilinear_kde with "
             "wrap indexing, the align_translation loop with running-mean reference, mean removal and knot update): every pixel "
             "(r,c) is placed at canvas centre + (c-(W-1)/2)·fast + (r-(H-1)/2)·slow for every H, W, canvas, scan vectors and knot "
-            "count 1..4; the four splat weights of a point add up to exactly 1 over the canvas and the weight map sums to the "
-            "number of pixels; a stack of identical images is a fixed point of the alignment loop for any registration routine "
+            "count 1..4; interp1d through 2/3/4 knots (Lagrange form) reproduces every polynomial of degree <= k-1 and knot-count "
+            "independence is derived from that; the four splat weights of a point are >= 0, add up to exactly 1 over the canvas "
+            "(also for wrapped border / outside positions) and have their centroid exactly at the position; the weight map sums "
+            "to the number of pixels; a normalised kernel conserves the total weight under mode='wrap' (any kernel) and under "
+            "mode='reflect' — the mode the code uses — for every symmetric kernel (counterexample for an asymmetric one); a stack of identical images is a fixed point of the alignment loop for any registration routine "
             "that returns zero shift and the unchanged image on identical inputs, and C13's model of cross_correlation_shift on the "
             "code's own FFT formulas is such a routine for every upsampling factor and positive max_image_shift whenever the canvas "
             "image has a unique positive correlation peak, at least 3x3 pixels and non-zero lowest Fourier coefficients on both "
@@ -24,8 +27,9 @@ MANIFEST_ENTRY = {
             "transposed/strided/negative-stride, mixed in one stack), dtypes, list vs 3-D containers, keyword and positional call forms "
             "(parameter order pinned) and call histories on one object including rejected calls.",
     "note": "Trusted: Lean kernel + propext/Classical.choice/Quot.sound; scipy.interpolate.interp1d (quadratic/cubic through "
-            "3/4 points = the interpolating polynomial) and scipy.ndimage.gaussian_filter (mode=reflect conserves the sum) are "
-            "modelled/assumed and only measured; float32 accumulation of the weight map. Moved from assumed to proved in round 2: "
+            "3/4 points = the interpolating polynomial) is modelled and measured; scipy.ndimage.gaussian_filter is modelled as a "
+            "separable correlation with a symmetric normalised kernel and reflect boundary (conservation now proved for that model, "
+            "still measured on scipy itself); float32 accumulation of the weight map. Moved from assumed to proved in round 2: "
             "the correlation theorem (hypothesis hcc) and the strict patch maximum (hypothesis hstrict) of the fixed-point theorem, "
             "both discharged from C13 (identical_stack_fixed_point_fft, identical_stack_fixed_point_of_axis_coeffs).",
     "technique": "Lean 4 proof (field identities for Lagrange interpolation of affine data, finite case analysis of wrap indexing, induction over the image list) + model-vs-implementation correspondence",
